@@ -96,7 +96,11 @@ def parse_operation_field(
     )
 
     if field.name and field.name.value == TYPENAME_FIELD_NAME and typename_values:
-        return generate_typename_annotation(typename_values), default_value, context
+        typename_annotation, default_value = parse_directives(
+            annotation=generate_typename_annotation(typename_values),
+            directives=directives if directives else tuple(),
+        )
+        return typename_annotation, default_value, context
 
     annotation = parse_operation_field_type(
         type_=type_,
